@@ -239,7 +239,8 @@ def inline_locals(ctx, f: FunctionInfo, node: ast.AST, *, depth: int = 6, keep=(
             if len(defs) == 1 and not isinstance(defs[0], ast.arguments):
                 v = assigned_value(defs[0], n.id)
                 if v is not None and isinstance(v, (ast.Name, ast.Attribute, ast.Subscript, ast.Call, ast.BinOp, ast.UnaryOp,
-                                                    ast.Compare, ast.Constant, ast.IfExp, ast.Tuple, ast.BoolOp, ast.JoinedStr)):
+                                                    ast.Compare, ast.Constant, ast.IfExp, ast.Tuple, ast.BoolOp, ast.JoinedStr,
+                                                    ast.Dict, ast.List, ast.Set, ast.ListComp, ast.DictComp, ast.SetComp)):
                     if alias_is_stable(ctx, f, defs[0], n if origin is None else origin, v):
                         return T(v, d - 1, None)
             elif len(defs) == 2 and all(isinstance(x, ast.Assign) for x in defs):
@@ -337,3 +338,59 @@ def normalise(ctx, f: FunctionInfo, node: ast.AST, *, depth: int = 6) -> ast.AST
         if not changed:
             break
     return cur
+
+
+def value_sources(ctx, f: FunctionInfo, node: ast.AST, *, limit: int = 400):
+    """Everything the value of expression `node` (a node of f's tree) may be computed from, following EVERY reaching definition of
+    every local transitively: returns (parameter names, dotted attribute chains such as 'self.nodes', call names).  Over-approximate
+    (union over paths) - use it for "derives from X on some path" / "cannot derive from anything but X" arguments."""
+    from .dataflow import assigned_value
+    rd = ctx.rd(f)
+    params, attrs, calls = set(), set(), set()
+    seen_defs = set()
+    work = [node]
+    n_steps = 0
+    while work:
+        n_steps += 1
+        if n_steps > limit:
+            break
+        e = work.pop()
+        for x in ast.walk(e):
+            if isinstance(x, ast.Attribute):
+                d = dotted(x)
+                if d:
+                    attrs.add(d)
+            elif isinstance(x, ast.Call):
+                cn = call_name(x)
+                if cn:
+                    calls.add(cn)
+            if not (isinstance(x, ast.Name) and isinstance(x.ctx, ast.Load)):
+                continue
+            try:
+                defs = rd.defs_reaching(x)
+            except Exception:
+                defs = []
+            if not defs and x.id in f.params:
+                params.add(x.id)
+            for d in defs:
+                if isinstance(d, ast.arguments):
+                    params.add(x.id)
+                    continue
+                key = (id(d), x.id)
+                if key in seen_defs:
+                    continue
+                seen_defs.add(key)
+                v = assigned_value(d, x.id)
+                if v is not None:
+                    work.append(v)
+                elif isinstance(d, ast.AugAssign):
+                    work.append(d.value)
+                    work.append(d.target) if not isinstance(d.target, ast.Name) else None
+                elif isinstance(d, (ast.For, ast.AsyncFor)):
+                    work.append(d.iter)
+                elif isinstance(d, ast.Assign):
+                    work.append(d.value)
+                elif isinstance(d, (ast.With, ast.AsyncWith)):
+                    for it in d.items:
+                        work.append(it.context_expr)
+    return params, attrs, calls
